@@ -468,6 +468,10 @@ pub fn gen_lib(t: Tier, c: &mut Chooser, families: &[usize]) -> GenCase {
                 }
                 l.structs.push(s);
             }
+            // two structures may carry the same name (the library value is a list, not a map)
+            if nstructs == 2 && c.cost(2, "duplicate-struct-name") == 1 {
+                l.structs[1].name = l.structs[0].name.clone();
+            }
             l
         }
         // strings
